@@ -317,6 +317,13 @@ class Gen:
             if not bcols:
                 return None
             return ["m", m, ["col", rng.choice(bcols)], []], "b"
+        if m == "nunique":
+            # distinct count of *computed* floats is decided by the last bit (two engines summing a group in different
+            # orders give std 1.5275252316519468 and ...465: 2 distinct values or 1): drawn over integer columns only
+            icols = [c for c in numcols if st.kinds[c] == "i"]
+            if not icols:
+                return None
+            return ["m", m, ["col", rng.choice(icols)], []], "i"
         if not numcols:
             return None
         c = rng.choice(numcols)
